@@ -155,6 +155,12 @@ inductive PopOut
   | panic              -- index out of range (never happens: `pop_never_panics`)
 deriving DecidableEq, Repr
 
+/-- `readyEndpoints[index % len]` -/
+def indexResult (ready : List EP) (c : Nat) : PopOut :=
+  match ready[c % ready.length]? with
+  | some e => .picked e.name e.gen
+  | none => .panic
+
 /-- `endpointPickStrategy.Pop` -/
 def pop (eps : List EP) (lb : List (Key × Nat)) (us : List Name) : PopOut × List (Key × Nat) :=
   if us.isEmpty then (.noReady, lb) else
@@ -165,10 +171,7 @@ def pop (eps : List EP) (lb : List (Key × Nat)) (us : List Name) : PopOut × Li
   | _ =>
     let key : Key := ready.map EP.id
     let c := toU64 (lbGet lb key + 1)            -- LoadOrStore(key, &0); atomic.AddUint64(lb, 1)
-    let lb' := lbSet lb key c
-    match ready[c % ready.length]? with
-    | some e => (.picked e.name e.gen, lb')
-    | none => (.panic, lb')
+    (indexResult ready c, lbSet lb key c)
 
 inductive Op
   | sync (servers : List Server) (policies : List (List Name))
